@@ -469,6 +469,8 @@ void World::after_step(const StepEffect& e)
     uint64_t h = cur.hash();
     state_hashes.insert(h);
     log.u64(h);
+    if (check(CK_AUDIT) && !faulted && !stop)
+        audit();
 }
 
 // ------------------------------------------------------------------ name lookups
